@@ -963,6 +963,23 @@ func c08Walk(t *rapid.T, re *rootEnv, n *spec.Node, plan, result tftypes.Value, 
 	}
 }
 
+// statePattern abbreviates the top-level null/unknown/known pattern of an object value (history class).
+func statePattern(v tftypes.Value) string {
+	m := attrsOf(v)
+	var b strings.Builder
+	for _, k := range sortedKeysTF(m) {
+		switch {
+		case !m[k].IsKnown():
+			b.WriteByte('u')
+		case m[k].IsNull():
+			b.WriteByte('n')
+		default:
+			b.WriteByte('k')
+		}
+	}
+	return b.String()
+}
+
 // nextPlan derives the next plan from the previous result: attributes kept, or redrawn.
 func nextPlan(t *rapid.T, re *rootEnv, prev tftypes.Value, label string) tftypes.Value {
 	fresh := genTF(t, re, modePlan, label)
@@ -1019,6 +1036,7 @@ func propC08(re *rootEnv) func(*rapid.T) {
 			}
 			must(err)
 			h.add("Plan", tfString(planV))
+			h.kinds[len(h.kinds)-1] = "Plan:" + statePattern(planV)
 			S := re.fn.New()
 			re.copyFrom(t, "C08", plan, S, h)
 			h.add("Echo", "")
